@@ -13,6 +13,7 @@
 import Desync.Proofs.LocalStoreProofs
 import Desync.Proofs.SftpStoreProofs
 import Desync.Proofs.S3StoreProofs
+import Desync.Proofs.LocalVerifyProofs
 
 namespace Desync.C16
 open Desync
@@ -62,6 +63,39 @@ theorem verify_considers_own_only (unc : Bool) (id : Bytes) (h : id.length = 32)
     verifyClassify unc (nameFromID unc id).2 = .consider id ∧
     verifyClassify unc (nameFromID (!unc) id).2 = .skip :=
   ⟨(classify_own unc id h).2, (classify_other_format unc id h).2⟩
+
+/-! ### verify (`Model/LocalVerify.lean`: the walk, `GetChunk` on the canonical path, report, repair)
+
+`valid id content` is the verdict of the verifying constructor (C03) and a parameter here. -/
+
+/-- **verify reports exactly the chunks whose content does not match their ID**: an "invalid" line is printed for `id`
+    iff the store holds the canonical own-format file of `id` with content the constructor rejects -/
+theorem verify_reports_exactly_the_invalid (unc repair : Bool) (valid : Bytes → Bytes → Bool) (d : StoreFiles) (hd : d.Nodup)
+    (id : Bytes) (hid : id.length = 32) :
+    (∃ r, VerifyLine.invalid id r ∈ (verify unc repair valid d).2) ↔
+      ∃ content, (nameFromID unc id, content) ∈ d ∧ valid id content = false :=
+  verify_reports_exactly_invalid unc repair valid d hd id hid
+
+/-- **with repair, verify removes exactly those**: what is gone afterwards is the canonical file of an ID with rejected
+    content; every such file is gone; nothing is created or rewritten; without repair nothing is removed -/
+theorem verify_repair_removes_exactly_the_invalid (unc : Bool) (valid : Bytes → Bytes → Bool) (d : StoreFiles) (hd : d.Nodup) :
+    (∀ f ∈ d, f ∉ (verify unc true valid d).1 → ∃ id, id.length = 32 ∧ f.1 = nameFromID unc id ∧ valid id f.2 = false) ∧
+    (∀ id content, id.length = 32 → (nameFromID unc id, content) ∈ d → valid id content = false →
+      (nameFromID unc id, content) ∉ (verify unc true valid d).1) ∧
+    (∀ f ∈ (verify unc true valid d).1, f ∈ d) ∧
+    (verify unc false valid d).1 = d :=
+  ⟨fun f hf hg => verify_removes_only_invalid unc valid d hd f hf hg,
+   fun id content hid hin hbad => verify_removes_every_invalid unc valid d hd id content hid hin hbad,
+   verify_subset unc true valid d, verify_no_repair_keeps_all unc valid d⟩
+
+/-- valid chunks, chunks of the other format (wherever they lie) and files that are not chunk names survive a repair -/
+theorem verify_repair_keeps_the_rest (unc : Bool) (valid : Bytes → Bytes → Bool) (d : StoreFiles) (hd : d.Nodup)
+    (f : (Bytes × Bytes) × Bytes) (hf : f ∈ d)
+    (h : (∃ id, id.length = 32 ∧ f.1 = nameFromID unc id ∧ valid id f.2 = true) ∨
+         (∃ dir id, id.length = 32 ∧ f.1 = (dir, (nameFromID (!unc) id).2)) ∨
+         verifyClassify unc f.1.2 = .skip) :
+    f ∈ (verify unc true valid d).1 :=
+  verify_keeps_valid_and_foreign unc valid d hd f hf h
 
 /-! ### the SFTP store -/
 
